@@ -502,7 +502,7 @@ def judge_real(scn, obs):
         fails.append(("master exited %.2f s after SIG%s; graceful_timeout is %d s" % (obs["exit_after"], scn["sig"], G), None))
     elif not graceful and obs["exit_after"] > prompt:
         # gthread: sys.exit(0) in handle_quit waits for the pool threads, the master waits graceful_timeout and kills
-        busy = scn["cls"] == "gthread" and scn["phase"] in ("app", "resp") and scn["app"] != "finish"
+        busy = scn["cls"] == "gthread" and scn["phase"] in ("app", "resp")
         fails.append(("quick shutdown (SIG%s) took %.2f s with a %s worker whose application was busy: it waited for the request"
                       % (scn["sig"], obs["exit_after"], scn["cls"]), KEY_GTQ if busy else None))
     if obs["left"]:
